@@ -102,6 +102,17 @@ var c08Sets = []c08Set{
 		{"exec-i0", false, 0, 0, 10, 0}, {"exec-i1", false, 0, 1, 10, 0}, {"exec-k1", false, 1, 1, 10, 0}, {"exec-limit", false, 0, 0, 1, 0}, {"exec-cancel@4", false, 0, 0, 10, 4},
 		{"fetch-i1", true, 0, 1, 0, 0}, {"fetch-i0", true, 0, 0, 0, 0},
 	}},
+	{"same-statement", func() []*grl.Rule {
+		// the identical call statement (and an identical assignment) in the action lists of several rules
+		return []*grl.Rule{
+			grl.R("a", grl.Sal(2), "F.K == 0", "F.Bump()", "F.I2 = F.I2 + 1", `Retract("a")`),
+			grl.R("b", grl.Sal(1), "F.K < 2", "F.Bump()", "F.I2 = F.I2 + 1", `Retract("b")`),
+			grl.R("c", nil, "F.I >= 0", "F.I2 = F.I2 + 1", "F.Bump()", `Retract("c")`),
+		}
+	}, []c08Call{
+		{"exec-k0", false, 0, 0, 10, 0}, {"exec-k1", false, 1, 0, 10, 0}, {"exec-k2", false, 2, 5, 10, 0}, {"exec-k0-limit", false, 0, 0, 1, 0}, {"fetch-k0", true, 0, 0, 0, 0},
+		{"remove:a", false, 0, 0, 0, 0},
+	}},
 	{"clock", func() []*grl.Rule {
 		// Now() is variable-free but not constant: every call sees the clock of ITS moment
 		return []*grl.Rule{
